@@ -7,9 +7,10 @@ ValueError where the spec says reject.
 """
 from __future__ import annotations
 import json
+import copy
 import random
 
-from .common import Ctx, MachineryError
+from .common import Ctx, MachineryError, containers as _containers, scribble as _scribble
 
 
 def _code_points(ctx: Ctx, enc_cases, dec_cases, ev_in, ev_out):
@@ -128,7 +129,22 @@ def _json_roundtrip(ctx: Ctx, rnd: random.Random, count: int):
         n += 1
         if back != h or b"=" in seg or b"+" in seg or b"/" in seg:
             ctx.violation("json_b64:roundtrip", {"header": repr(h), "segment": seg.decode("latin1"), "back": repr(back)})
-        segs.append((h, seg))
+        segs.append((copy.deepcopy(h), seg))
+        # TLA+ operators are functions by construction; the code must be one too: the same segment decodes to the
+        # same object whatever was done with an earlier result (every nested container of it is edited in place)
+        keep = copy.deepcopy(h)
+        _scribble(back)
+        _scribble(h)
+        try:
+            again = util.json_b64decode(seg)
+            again_s = util.json_b64decode(seg.decode("ascii"))
+        except Exception as e:  # noqa
+            ctx.violation(f"json_b64:second-decode:{type(e).__name__}", {"header": repr(keep)})
+            continue
+        if again != keep or again_s != keep:
+            ctx.violation("json_b64:not-a-function", {"header": repr(keep), "segment": seg.decode("latin1"), "second": repr(again)})
+        if any(a is b for a in _containers(again) for b in _containers(again_s)):
+            ctx.violation("json_b64:shared-result", {"header": repr(keep), "segment": seg.decode("latin1")})
     return n, segs
 
 
